@@ -146,9 +146,21 @@ def build_script(seed, size=1.0, micro=False):
         par.op("g1.hash", V.s(x), V.b(rb(rng, 12)), V.b(b"C20")); par.op("g2.encode", V.s(x), V.b(rb(rng, 12)), V.b(b"C20"))
         par.op("g1.map2", fe(), fe()); par.op("g2.map", f2()); par.op("g1.osswu", fe()); par.op("g2.osswu", f2())
         par.op("g1.clear_h", J1[i]); par.op("g2.clear_h", J2[i])
+    # calls OUTSIDE the documented domain that end in a panic (caught by the caller): they are part of the call
+    # history / schedule too, and must not leave anything behind that changes a later result
+    big = V.lst([V.RR(rng.getrandbits(254)), V.RR((1 << 255) | rng.getrandbits(200)), V.RR(rng.getrandbits(255)), V.RR((1 << 255) + 5)])
+    for _ in range(n(2)):
+        par.op("g1.msm", V.lst(A1), big)
+        par.op("g2.msm_pip", V.lst(A2), big, V.n(rng.randrange(2, 7)))
+        par.op("g1.msm_pip", V.lst(A1), big, V.n(rng.randrange(2, 7)))
+        par.op("expand", V.s("sha256"), V.b(b"x"), V.b(b"y"), V.n(8161 + rng.randrange(100)))
+        par.op("g1.wnaf_exp", tab1, dig2)        # digits recoded for another window: may index past the table
+        par.op("h2f", V.s("fq"), V.s("sha512"), V.b(b"m"), V.b(b"t"), V.n(300))
     for _ in range(n(5)):
         i, j = rng.randrange(3), rng.randrange(3)
         par.op("pairing", A1[i], A2[j])
+        par.op("pairing", A1[(i + 1) % 3], A2[j])
+        par.op("pair_with_21", A2[j], A1[i])
         m = par.op("miller", V.lst([pp1[i], pp2[j], pp1[(i + 1) % 4], pp2[(j + 2) % 4]]))
         par.lines[-1] = par.lines[-1]  # result of miller is consumed by the next op through its own id
         par.op("final_exp", f12())
@@ -237,9 +249,9 @@ def judge_par(ctx, rec, res):
             return spec.expect_point(res, rec, g, spec.smul(g, rec.args[0][1], P))
         k = share[("SHARE_SCALAR", g)][1]
         return spec.expect_point(res, rec, g, spec.smul(g, k, spec.pt(rec.args[0])[1]))
-    if rec.op in ("pairing", "pairing_multi", "miller", "final_exp", "prepare1", "prepare2"):
+    if rec.op in ("pairing", "pairing_p", "pair_with_12", "pair_with_21", "pairing_multi", "miller", "final_exp", "prepare1", "prepare2"):
         from props import c11, c03, c12
-        if rec.op == "pairing":
+        if rec.op in ("pairing", "pairing_p", "pair_with_12", "pair_with_21"):
             return c03.judge(ctx, rec, H.ShardResult()) or None
         if rec.op == "final_exp":
             return c12.judge(ctx, rec, H.ShardResult())
